@@ -251,6 +251,17 @@ pub fn digest_sections(ctx: &Context) -> Vec<(&'static str, String)> {
         ("dims", dims.join(",")),
         ("ureps", unitreps.join(",")),
         ("vals", vals.join(",")),
+        ("ans", {
+            // the last result (`ans` / `_`) as a later input would see it
+            let mut c4 = ctx.clone();
+            let o = interpret(&mut c4, "ans", CodeSource::Internal);
+            let p: Vec<&str> = o.splitn(4, '|').collect();
+            if p.len() >= 3 && p[0] == "ok" {
+                format!("{}:{}", p[1], p[2])
+            } else {
+                "-".to_string()
+            }
+        }),
         ("bits", bits.join(",")),
     ]
 }
